@@ -35,6 +35,11 @@ def linkCount : List Driver → Bool → Bool → Option Nat
     let haveT' := haveT || (succ d && d.kind == .tty)
     if haveC' && haveT' then some 1 else (linkCount ds haveC' haveT').map (· + 1)
 
+/-- length of the log at the moment the pair is linked, when `startLen` bytes were logged before the
+first of `ds` is probed -/
+def linkMoment (startLen : Nat) (ds : List Driver) (haveC haveT : Bool) : Option Nat :=
+  (linkCount ds haveC haveT).map fun j => startLen + ((ds.take j).map driverLog).flatten.length
+
 /-- the bytes the terminal must have received, given everything logged before the link (`pre`) and after it -/
 def ttyStream (pre post : List UInt8) : List UInt8 := lastN cap pre ++ post
 
